@@ -514,11 +514,23 @@ Qed.
 
 (* ---- signatures ------------------------------------------------------------------- *)
 
-Theorem sig_case_stable : forall g s s', lower cc s = lower cc s' -> sig_matches cc g s = sig_matches cc g s'.
+(* What case stability needs of a host pattern (KHost, Regex.v): its matcher does
+   not tell apart contents with the same lower().  (CPython under IGNORECASE:
+   literals, sets and back-references all compare case-insensitively.)  Nothing
+   is asked of substring and AST-regex signatures. *)
+Definition sig_fold_ok (g : sig) : Prop :=
+  match s_kind g with
+  | KHost f => forall s s', lower cc s = lower cc s' -> f s = f s'
+  | _ => True
+  end.
+
+Theorem sig_case_stable : forall g, sig_fold_ok g ->
+  forall s s', lower cc s = lower cc s' -> sig_matches cc g s = sig_matches cc g s'.
 Proof.
-  intros g s s' E. unfold sig_matches. destruct (s_kind g).
+  intros g F s s' E. unfold sig_matches, sig_fold_ok in *. destruct (s_kind g).
   - now rewrite E.
   - now apply search_case_stable.
+  - now apply F.
 Qed.
 
 End WithCC.
@@ -533,27 +545,41 @@ Proof.
   rewrite !lower_app. now apply infixb_embed.
 Qed.
 
-Theorem sig_embed : forall cc g s pre post,
+(* What embedding stability needs of a host pattern: a match survives
+   surrounding text that glues no \w character to either edge (the same
+   condition a \b-anchored AST regex needs). *)
+Definition sig_embed_ok (cc : charcls) (g : sig) : Prop :=
+  match s_kind g with
+  | KHost f => forall s pre post, last_word cc false pre = false -> head_word cc post = false ->
+                                  f s = true -> f (pre ++ s ++ post) = true
+  | _ => True
+  end.
+
+Theorem sig_embed : forall cc g s pre post, sig_embed_ok cc g ->
   last_word cc false pre = false -> head_word cc post = false ->
   sig_matches cc g s = true -> sig_matches cc g (pre ++ s ++ post) = true.
 Proof.
-  intros cc g s pre post H1 H2 H. destruct (s_kind g) eqn:K.
+  intros cc g s pre post EO H1 H2 H. destruct (s_kind g) eqn:K.
   - now apply sig_embed_substring with (p := p).
   - unfold sig_matches in *. rewrite K in *. now apply search_embed.
+  - unfold sig_matches, sig_embed_ok in *. rewrite K in *. now apply EO.
 Qed.
 
-Theorem sig_embed_sided : forall cc g s pre post,
+Theorem sig_embed_sided : forall cc g s pre post, sig_embed_ok cc g ->
   (sig_edge_free_l g = true \/ last_word cc false pre = false) ->
   (sig_edge_free_r g = true \/ head_word cc post = false) ->
   sig_matches cc g s = true -> sig_matches cc g (pre ++ s ++ post) = true.
 Proof.
-  intros cc g s pre post H1 H2 H. destruct (s_kind g) eqn:K.
+  intros cc g s pre post EO H1 H2 H. destruct (s_kind g) eqn:K.
   - now apply sig_embed_substring with (p := p).
   - unfold sig_matches, sig_edge_free_l, sig_edge_free_r in *. rewrite K in *. now apply search_embed_sided.
+  - unfold sig_matches, sig_embed_ok, sig_edge_free_l, sig_edge_free_r in *. rewrite K in *.
+    destruct H1 as [H1|H1]; [discriminate|]. destruct H2 as [H2|H2]; [discriminate|]. now apply EO.
 Qed.
 
+(* a host pattern is never counted as \b-free: nothing is known about it *)
 Definition sig_wb_free (g : sig) : bool :=
-  match s_kind g with KSub _ => true | KRx r => wb_free r end.
+  match s_kind g with KSub _ => true | KRx r => wb_free r | KHost _ => false end.
 
 Theorem sig_embed_wb_free : forall cc g s pre post,
   sig_wb_free g = true -> sig_matches cc g s = true -> sig_matches cc g (pre ++ s ++ post) = true.
@@ -561,6 +587,7 @@ Proof.
   intros cc g s pre post F H. destruct (s_kind g) eqn:K.
   - now apply sig_embed_substring with (p := p).
   - unfold sig_matches, sig_wb_free in *. rewrite K in *. now apply search_embed_wb_free.
+  - unfold sig_wb_free in F. rewrite K in F. discriminate.
 Qed.
 
 (* the executable classification satisfies cc_ok *)
